@@ -15,7 +15,7 @@
    A field value is a natural number when width <= NumMax, otherwise a
    sequence of width/8 bytes in network order (TLC integers are 32-bit
    signed, so 32-bit and wider quantities never become one integer).      *)
-EXTENDS Integers, Sequences, FiniteSets, SequencesExt
+EXTENDS Integers, Sequences, FiniteSets, SequencesExt, Ones
 
 NumMax == 30
 Pow2(n) == 2^n
@@ -186,7 +186,8 @@ EncQuestion(labels, qtype, qclass) == EncName(labels) \o U16(qtype) \o U16(qclas
    the buffer to `init`; an odd trailing byte is the high byte of a word
    whose low byte is zero.  Note: in this arithmetic 0 and 65535 both denote
    zero; Combine yields 0 only from 0+0.                                    *)
-Combine(a, b) == LET s == a + b IN IF s > 65535 THEN s - 65535 ELSE s
+(* Combine(a, b) == LET s == a + b IN IF s > 65535 THEN s - 65535 ELSE s     -- defined in module Ones (shared
+   with OnesApa, where Apalache checks its algebra for all 2^32 argument pairs and all 2^48 triples) *)
 
 Words(bytes) ==
   [k \in 1..((Len(bytes) + 1) \div 2) |->
